@@ -7,6 +7,7 @@
 mod alpha;
 mod astobs;
 mod input;
+mod interp;
 mod pairs;
 mod sat;
 mod types;
@@ -44,6 +45,7 @@ fn main() {
             "ast" => astobs::run_case(&u, &case),
             "types" => types::run_case(&case),
             "pairs" => pairs::run_case(&u, &case),
+            "interp" => interp::run_case(&u, &case),
             _ => {
                 eprintln!("unknown command {}", cmd);
                 std::process::exit(2);
